@@ -29,6 +29,18 @@ CLAIMS = {
             "Exploration: histories mix pushes of never-completing events, real sleeps shorter and longer than the timeout, Maintain and Close. From harness clock readings around each call the oracle derives whether an event is definitely expired / definitely live / undetermined at each later call and asserts only the definite cases (must be delivered in this very call as soon as it is the oldest / must not be delivered). Close must flush everything once in order with loss accounting; later Maintain/Close must fail silently; nil Stream must be refused.",
             "Real clock (a fake clock would need rewriting library lines); under load more decisions are undetermined, never wrong. No push after Close.",
             "DESIGN.md section 5, C19"),
+    "C04": ("property testing (rapid) + exhaustive type sweep: written header vs parsed header (independent expectation), one-mutation malformed headers",
+            "Exploration: lines are generated from (type, seconds, milliseconds, sequence, hostile body) and the parse result of ParseLogLine and Parse is compared field by field with what was written, including ToMapStr's well-known keys; all 65 536 record types are swept exhaustively through three headers; malformed headers (one mutation, malformed under any reading) must give an error and no message.",
+            "Type names are the library's String() names (their consistency is C20); three-digit milliseconds; corruptions that still leave a parsable header are not asserted to fail.",
+            "DESIGN.md section 5, C04"),
+    "C05": ("property testing (rapid) over arbitrary bytes and grammar-aware mutations of kernel-style records + coverage-guided native fuzzing (thorough); totality oracle with panic recovery, hang watchdog and call-twice determinism",
+            "Exploration: ~60 000 (quick) / 16 million (thorough) generated inputs plus 2 x 120 s native fuzzing on 16 workers; every input goes through Parse/ParseLogLine under the enrichment types; no panic, no hang, exactly one of (msg, err), Data/Tags/ToMapStr stable across calls and the error surfaced in ToMapStr. Absence of panics is sampled, not proved.",
+            "Hang = a case running > 30 s. Native fuzzing cannot be seeded; its crashers are the replay unit.",
+            "DESIGN.md section 5, C05"),
+    "C12": ("round-trip property testing (rapid): independent kernel-style encoder (internal/kenc) -> Data(); exhaustive sweeps of the arch x syscall tables and the errno list of the kernel header snapshot",
+            "Exploration: records are written by an encoder that follows the kernel's formatting rules and shares no code with the parser; Data() must return the original bytes for every decoded field, leave plain fields alone, drop exactly the written placeholders and derive result/unset/errno/arch/syscall by the fixed rules. Errno names are compared with the kernel headers, syscall names with the exported tables, exhaustively.",
+            "Value domain as the property states; see DESIGN.md section 7 item 7 for every exclusion.",
+            "DESIGN.md section 5, C12"),
 }
 
 NOT_YET = "check not built yet (construction in progress; see DESIGN.md section 11)"
